@@ -3173,16 +3173,16 @@ impl<'a> Visitor<'a, '_, Error> for JSONValidator<'a> {
 
     let error: Option<String> = match value {
       token::Value::INT(v) => match &self.json {
-        Value::Number(n) => match n.as_i64() {
+        Value::Number(n) => match json_integer(n) {
           Some(i) => match &self.state.ctrl {
-            Some(ControlOperator::NE) | Some(ControlOperator::DEFAULT) if i != *v as i64 => None,
-            Some(ControlOperator::LT) if i < *v as i64 => None,
-            Some(ControlOperator::LE) if i <= *v as i64 => None,
-            Some(ControlOperator::GT) if i > *v as i64 => None,
-            Some(ControlOperator::GE) if i >= *v as i64 => None,
+            Some(ControlOperator::NE) | Some(ControlOperator::DEFAULT) if i != *v as i128 => None,
+            Some(ControlOperator::LT) if i < *v as i128 => None,
+            Some(ControlOperator::LE) if i <= *v as i128 => None,
+            Some(ControlOperator::GT) if i > *v as i128 => None,
+            Some(ControlOperator::GE) if i >= *v as i128 => None,
             #[cfg(feature = "additional-controls")]
             Some(ControlOperator::PLUS) => {
-              if i == *v as i64 {
+              if i == *v as i128 {
                 None
               } else {
                 Some(format!("expected computed .plus value {}, got {}", v, n))
@@ -3193,7 +3193,7 @@ impl<'a> Visitor<'a, '_, Error> for JSONValidator<'a> {
             | Some(ControlOperator::FEATURE)
             | Some(ControlOperator::AND)
             | Some(ControlOperator::WITHIN) => {
-              if i == *v as i64 {
+              if i == *v as i128 {
                 None
               } else {
                 Some(format!("expected value {}, got {}", v, n))
@@ -3201,7 +3201,7 @@ impl<'a> Visitor<'a, '_, Error> for JSONValidator<'a> {
             }
             #[cfg(not(feature = "additional-controls"))]
             None | Some(ControlOperator::AND) | Some(ControlOperator::WITHIN) => {
-              if i == *v as i64 {
+              if i == *v as i128 {
                 None
               } else {
                 Some(format!("expected value {}, got {}", v, n))
@@ -3214,25 +3214,25 @@ impl<'a> Visitor<'a, '_, Error> for JSONValidator<'a> {
               n
             )),
           },
-          None => Some(format!("{} cannot be represented as an i64", n)),
+          None => Some(format!("{} is not an integer", n)),
         },
         _ => Some(format!("expected value {}, got {}", v, self.json)),
       },
       token::Value::UINT(v) => match &self.json {
-        Value::Number(n) => match n.as_u64() {
+        Value::Number(n) => match json_integer(n) {
           Some(i) => match &self.state.ctrl {
-            Some(ControlOperator::NE) | Some(ControlOperator::DEFAULT) if i != *v as u64 => None,
-            Some(ControlOperator::LT) if i < *v as u64 => None,
-            Some(ControlOperator::LE) if i <= *v as u64 => None,
-            Some(ControlOperator::GT) if i > *v as u64 => None,
-            Some(ControlOperator::GE) if i >= *v as u64 => None,
+            Some(ControlOperator::NE) | Some(ControlOperator::DEFAULT) if i != *v as i128 => None,
+            Some(ControlOperator::LT) if i < *v as i128 => None,
+            Some(ControlOperator::LE) if i <= *v as i128 => None,
+            Some(ControlOperator::GT) if i > *v as i128 => None,
+            Some(ControlOperator::GE) if i >= *v as i128 => None,
             Some(ControlOperator::SIZE) => match 256u128.checked_pow(*v as u32) {
-              Some(n) if (i as u128) < n => None,
+              Some(n) if i >= 0 && (i as u128) < n => None,
               _ => Some(format!("expected value .size {}, got {}", v, n)),
             },
             #[cfg(feature = "additional-controls")]
             Some(ControlOperator::PLUS) => {
-              if i == *v as u64 {
+              if i == *v as i128 {
                 None
               } else {
                 Some(format!("expected computed .plus value {}, got {}", v, n))
@@ -3243,7 +3243,7 @@ impl<'a> Visitor<'a, '_, Error> for JSONValidator<'a> {
             | Some(ControlOperator::FEATURE)
             | Some(ControlOperator::AND)
             | Some(ControlOperator::WITHIN) => {
-              if i == *v as u64 {
+              if i == *v as i128 {
                 None
               } else {
                 Some(format!("expected value {}, got {}", v, n))
@@ -3251,7 +3251,7 @@ impl<'a> Visitor<'a, '_, Error> for JSONValidator<'a> {
             }
             #[cfg(not(feature = "additional-controls"))]
             None | Some(ControlOperator::AND) | Some(ControlOperator::WITHIN) => {
-              if i == *v as u64 {
+              if i == *v as i128 {
                 None
               } else {
                 Some(format!("expected value {}, got {}", v, n))
@@ -3264,7 +3264,7 @@ impl<'a> Visitor<'a, '_, Error> for JSONValidator<'a> {
               n
             )),
           },
-          None => Some(format!("{} cannot be represented as a u64", n)),
+          None => Some(format!("{} is not an integer", n)),
         },
         Value::String(s) => match &self.state.ctrl {
           Some(ControlOperator::SIZE) => {
@@ -3442,6 +3442,14 @@ impl<'a> Visitor<'a, '_, Error> for JSONValidator<'a> {
 
     Ok(())
   }
+}
+
+// The integer value of a JSON number over the whole i64/u64 range, or None
+// when the number is not an integer
+fn json_integer(n: &serde_json::Number) -> Option<i128> {
+  n.as_i64()
+    .map(i128::from)
+    .or_else(|| n.as_u64().map(i128::from))
 }
 
 // Helper function to check if an identifier refers to an array type rule
